@@ -481,6 +481,22 @@ impl Built {
         }
         self
     }
+
+    /// The same file below `n` empty lines: every line number moves by `n` (far beyond 65 535 when asked so),
+    /// every byte offset by the bytes of those lines.
+    pub fn with_blank_prefix(mut self, n: usize, crlf: bool) -> Built {
+        let nl = if crlf { "\r\n" } else { "\n" };
+        let bytes = n * nl.len();
+        self.text.insert_str(0, &nl.repeat(n));
+        for b in &mut self.blocks {
+            b.tag_span = (b.tag_span.0 + bytes, b.tag_span.1 + bytes);
+            b.start_comment = (b.start_comment.0 + bytes, b.start_comment.1 + bytes);
+            b.end_comment = (b.end_comment.0 + bytes, b.end_comment.1 + bytes);
+            b.line += n;
+            b.end_line += n;
+        }
+        self
+    }
 }
 
 /// Balances the events first: the result is a well-nested file with its ground truth.
